@@ -160,6 +160,21 @@ CHECKS = {
             "Trusted: CPython audit events (no events exist for stat-family calls: those are interposed as os module "
             "attributes); helper programs' own effects are attributed to the helper; no symlink leaves the root.",
             "DESIGN.md §3 C01"),
+    "C17": ("exploration",
+            "runtime monitoring: differential execution of simpleTAL against an independent tree-walking TAL/TALES/METAL "
+            "evaluator on normalised event streams; structural monitor on every compiled program (scope bracketing, jump "
+            "targets, macro/slot ranges); dynamic monitor on every execute (scope and local-stack depth)",
+            "Held on the executions produced: 4 000 (quick) / 16 x 80 000 (thorough) grammar-generated (template, context) "
+            "pairs; evidence counts programs inspected, jump targets and scopes checked, executes monitored.",
+            "Trusted: vf/talref.py (abstains on the constructs listed in its ASSUMPTIONS).",
+            "DESIGN.md §3 C17"),
+    "C18": ("exploration",
+            "runtime monitoring: canary payloads vs inert twins (skeleton equality, no canary element/attribute); python: "
+            "gate observed through side effects and an audit hook, directly and through TALFileHandler, including "
+            "off-after-on sequences; pass-through equivalence and fixed point; context snapshots before/after",
+            "Held on the executions produced: ~10 000 cases per quick run across the four sub-checks.",
+            "Trusted: html.parser as the tokeniser; the side-effect canaries.",
+            "DESIGN.md §3 C18"),
 }
 
 NOT_YET = "check not built yet in this session (work in progress); see DESIGN.md §3 for the planned monitor"
